@@ -3,7 +3,7 @@
 // Case kinds (fields separated by one blank):
 //
 //	grpc <code>                                   -> ConvertGrpcStatus(status.Error(code))
-//	shoot <enabled> <depth> <notagonly> <tag> <path> -> tags of the sample reported by BaseGun.Shoot, proto code
+//	shoot <enabled> <depth> <notagonly> <tag> <path> -> tags of the sample reported by BaseGun.Shoot (as it is at the moment of Report), proto code, id, late=<samples written to after Report>
 //	errno <timeout> <shape>                       -> errno field set by Sample.SetErr on a real error value
 //	ids <start-ignored> <goroutines> <per>        -> are the ids of NextID pairwise distinct / contiguous
 package main
@@ -37,10 +37,43 @@ import (
 	"verifharness/internal/vh"
 )
 
-type recAggr struct{ samples []*netsample.Sample }
+// snap is what an aggregator that looks at a sample INSIDE Report sees: Report hands the sample
+// over (the standard phout aggregator renders it on its own goroutine and recycles it), so the
+// value the property speaks of is the value at that moment.
+type snap struct {
+	tags   string
+	proto  int
+	net    string
+	id     uint64
+	hasErr bool
+}
+
+func takeSnap(s *netsample.Sample) snap {
+	return snap{tags: s.Tags(), proto: s.ProtoCode(), net: sampleNet(s), id: s.ID(), hasErr: s.Err() != nil}
+}
+
+// lateWrites: how many of the reported samples were written to after they had been handed over
+// (their value when the shot has returned differs from their value at Report time).
+func lateWrites(ss []*netsample.Sample, snaps []snap) int {
+	n := 0
+	for i, s := range ss {
+		if takeSnap(s) != snaps[i] {
+			n++
+		}
+	}
+	return n
+}
+
+type recAggr struct {
+	samples []*netsample.Sample
+	snaps   []snap
+}
 
 func (r *recAggr) Run(ctx context.Context, deps core.AggregatorDeps) error { return nil }
-func (r *recAggr) Report(s *netsample.Sample)                              { r.samples = append(r.samples, s) }
+func (r *recAggr) Report(s *netsample.Sample) {
+	r.samples = append(r.samples, s)
+	r.snaps = append(r.snaps, takeSnap(s))
+}
 
 type fixedClient struct{ status int }
 
@@ -132,8 +165,8 @@ func runCase(c string) string {
 		if len(ag.samples) != 1 {
 			return fmt.Sprintf("samples=%d", len(ag.samples))
 		}
-		s := ag.samples[0]
-		return fmt.Sprintf("%s %d %d", vh.HexS(s.Tags()), s.ProtoCode(), s.ID())
+		s := ag.snaps[0]
+		return fmt.Sprintf("%s %d %d late=%d", vh.HexS(s.tags), s.proto, s.id, lateWrites(ag.samples, ag.snaps))
 	case "errno":
 		var err error
 		if f[1] == "1" {
